@@ -331,7 +331,16 @@ func (r *router) Routes(routePath, methods string, handlers ...Handler) *Route {
 
 	var route *Route
 	for _, m := range ms {
-		route = r.Route(m, routePath, handlers)
+		added := r.Route(m, routePath, handlers)
+		if route == nil {
+			route = added
+			continue
+		}
+
+		// The returned route stands for all of the methods, not just the last one.
+		for method, leaf := range added.leaves {
+			route.leaves[method] = leaf
+		}
 	}
 	return route
 }
